@@ -212,7 +212,7 @@ theorem loaddat_state (F : FS) (vol : Bool) (opts : Opts) :
 theorem open_state (F : FS) (vol : Bool) (opts : Opts) (E : List LogEntry) (hE : ∀ e ∈ E, EntryFits e)
     (hlog : LogState F (snapVer F) E) (hsv : snapVer F < 2^32) :
     OpenState F vol (openIndex { fs := F, volatile := vol, opts := opts, eager := eg }) := by
-  have A := loaddat_state F vol opts
+  have A := loaddat_state (eg := eg) F vol opts
   have hD : diskIndex F = applyEntriesL (snapBase F) (E.map stripE) := by
     unfold diskIndex
     rw [logEntries_of_state F (snapVer F) E hlog rfl hsv hE]
@@ -363,9 +363,10 @@ theorem diskIndex_congr2 (F1 F2 : FS) (hp : pickIdx F1 = pickIdx F2) (hl : F1.lo
   rw [hp, hl, hv]
 
 /-- `load(nil)` after `NewDBidx` on a readable directory reads every record (any mode) -/
-theorem loadAll_of_openState (F : FS) (vol : Bool) (X : DB) (S : OpenState F vol X) (hR : DirReadable eg F) :
+theorem loadAll_of_openState (F : FS) (vol : Bool) (X : DB) (S : OpenState F vol X) (hR : DirReadable eg F)
+    (he : X.eager = eg) :
     loadAll X = { X with index := mapV (loadedRec X.fs) (diskIndex F) } := by
-  have hfold := loadFold_general (diskIndex F) X S.failed (by
+  have hfold := loadFold_general (diskIndex F) X S.failed he (by
     intro kr hkr
     obtain ⟨h1, f, v, h3, h4⟩ := hR kr hkr
     exact ⟨h1, f, v, by rw [S.dats kr hkr]; exact h3, h4⟩) []
@@ -377,10 +378,10 @@ theorem loadAll_of_openState (F : FS) (vol : Bool) (X : DB) (S : OpenState F vol
     state `X` so that it also applies when `NewDBidx` discarded the log (then `F` is the directory without it) -/
 theorem inv3_of_openState (F : FS) (X : DB) (S : OpenState F false X) (E : List LogEntry) (hE : ∀ e ∈ E, EntryFits e)
     (hlog : LogState F (snapVer F) E) (hsv : snapVer F < 2^32) (hR : DirReadable eg F)
-    (hmax : X.maxSeq + 1 < 2^32) :
+    (hmax : X.maxSeq + 1 < 2^32) (he : X.eager = eg) :
     loadAll X = { X with index := mapV (loadedRec X.fs) (diskIndex F) } ∧
     Inv3 { X with index := mapV (loadedRec X.fs) (diskIndex F), dataSeq := u32 (X.maxSeq + 1) } := by
-  have hfold := loadFold_general (diskIndex F) X S.failed (by
+  have hfold := loadFold_general (diskIndex F) X S.failed he (by
     intro kr hkr
     obtain ⟨h1, f, v, h3, h4⟩ := hR kr hkr
     exact ⟨h1, f, v, by rw [S.dats kr hkr]; exact h3, h4⟩) []
@@ -393,7 +394,7 @@ theorem inv3_of_openState (F : FS) (X : DB) (S : OpenState F false X) (E : List 
   obtain ⟨hDX, hSV⟩ := diskIndex_congr2 X.fs F S.pick S.log
   -- records after loading
   have hloaded : ∀ kr ∈ diskIndex F, ∃ f, dlookup kr.2.seq X.fs.dats = some f ∧
-      ReadsBack f kr.2 ((loadedRec X.fs kr.2).data.getD []) ∧ hasFlag kr.2.flags NO_CACHE = false := by
+      ReadsBack f kr.2 ((loadedRec X.fs kr.2).data.getD []) ∧ hasFlag kr.2.flags (ncOf eg) = false := by
     intro kr hkr
     obtain ⟨h1, f, v, h3, h4⟩ := hR kr hkr
     have hfX : dlookup kr.2.seq X.fs.dats = some f := by rw [S.dats kr hkr]; exact h3
@@ -408,7 +409,10 @@ theorem inv3_of_openState (F : FS) (X : DB) (S : OpenState F false X) (E : List 
     · refine ⟨S.failed, ?_⟩
       intro kr hkr
       obtain ⟨x, hx, rfl⟩ := List.mem_map.mp hkr
-      exact ⟨rfl, (hloaded x hx).choose_spec.2.2⟩
+      refine ⟨rfl, ?_⟩
+      show hasFlag x.2.flags (ncOf X.eager) = false
+      rw [he]
+      exact (hloaded x hx).choose_spec.2.2
     · exact S.volatile
     · intro kr hkr
       obtain ⟨x, hx, rfl⟩ := List.mem_map.mp hkr
@@ -463,6 +467,8 @@ theorem inv3_of_openState (F : FS) (X : DB) (S : OpenState F false X) (E : List 
     · intro kr hkr
       have : kr ∈ diskIndex X.fs := hkr
       rw [hDX] at this
+      show hasFlag kr.2.flags (ncOf X.eager) = false
+      rw [he]
       exact (hR kr this).1
     · intro h
       have h' : X.datOpen = true := h
@@ -493,8 +499,8 @@ theorem open_inv3 (F : FS) (opts : Opts) (E : List LogEntry) (hE : ∀ e ∈ E, 
     (hlog : LogState F (snapVer F) E) (hsv : snapVer F < 2^32) (hR : DirReadable eg F)
     (hmax : (openIndex { fs := F, volatile := false, opts := opts, eager := eg }).maxSeq + 1 < 2^32) :
     Inv3 (openDB F false true opts eg) := by
-  have S := open_state F false opts E hE hlog hsv
-  obtain ⟨hload, h3⟩ := inv3_of_openState F _ S E hE hlog hsv hR hmax
+  have S := open_state (eg := eg) F false opts E hE hlog hsv
+  obtain ⟨hload, h3⟩ := inv3_of_openState F _ S E hE hlog hsv hR hmax (openIndex_eager F false opts)
   have hopen : openDB F false true opts eg =
       { openIndex { fs := F, volatile := false, opts := opts, eager := eg } with
         index := mapV (loadedRec (openIndex { fs := F, volatile := false, opts := opts, eager := eg }).fs) (diskIndex F),
